@@ -53,12 +53,13 @@ def run(chk):
     recs = core.run_driver('density', tier=chk.tier, seed=chk.seed)
     recs = kernels(recs)
     chk.validate('density', 'Trace_Density', 'Trace_Density.cfg', recs, driver='density', jobs=14)
-    good = [r for r in recs if r['exc'] == '' and r['dist'] == 'cacg'][0]
+    goods = [r for r in recs if r['exc'] == '' and r['dist'] == 'cacg']
+    good = goods[0]
 
     def corrupt(r):
         r['lp'] = [r['lp'][0], r['lp'][1] + 1]
         return r
-    core.binding_demo(chk, 'bind-value', 'Trace_Density', 'Trace_Density.cfg', good, corrupt, 'value')
+    core.binding_demo(chk, 'bind-value', 'Trace_Density', 'Trace_Density.cfg', good, corrupt, 'value', candidates=goods[1:])
     chk.assumptions = ['normalising constants are kernels evaluated by mpmath (50 digits) from the textbook formulas (Mardia & '
                        'Jupp; Kent 1994 for the complex Bingham); that these closed forms integrate to one is not decided here',
                        'Cholesky factors / triangular solves computed by NumPy in the driver and verified by TLC']
